@@ -137,7 +137,21 @@ func c03Routing(c *lib.Ctx, idx uint64) {
 		Monster:       3,
 	}
 	g := lib.NewPlanGen(rng, o)
-	plan := g.Fill()
+	var plan *ref.Plan
+	if idx%40 == 7 {
+		// a long recording: early definitions on slots 8-15 stay in use while slots 0-7 are
+		// redefined thousands of times (more than 4096 field definitions in one file), then
+		// messages arrive on every slot again and must still be routed by their own definition
+		g.O.Locals, g.O.Redefine, g.O.Records, g.O.Monster, g.O.MaxFields = 16, 5, 40, 0, 12
+		g.Fill()
+		g.O.Locals, g.O.Redefine, g.O.Records = 8, 50, 1200+rng.Intn(1500)
+		g.Fill()
+		g.O.Locals, g.O.Redefine, g.O.Records = 16, 0, 60
+		plan = g.Fill()
+		c.Count("long_recordings", 1)
+	} else {
+		plan = g.Fill()
+	}
 	ex, _, ok := checkPlanDecode(c, plan, "", true)
 	if !ok || ex == nil {
 		return
